@@ -740,7 +740,7 @@ class Drillhole(Points):
                         continue
                     if isinstance(child, NumericData):
                         child.values = child.format_values(child.values)[sort_ind]
-                    elif isinstance(child.values, (np.ndarray, str)):
+                    elif isinstance(getattr(child, "values", None), (np.ndarray, str)):
                         text = np.atleast_1d(child.values)
                         padded = np.r_[text, [""] * (len(sort_ind) - len(text))]
                         child.values = padded[sort_ind]
